@@ -60,6 +60,13 @@ def build(ld, kind, n, keyed, tmp, shape='dict'):
             ds = ld.new(container).map(lambda e: e).cache()
         elif kind == 'diskcache':
             ds = ld.new(container).diskcache(cache_dir=os.path.join(tmp, 'dc'), reuse=False, clear=True)
+        elif kind == 'jsonfile':
+            # new(path): the container is read from a JSON file (the caller's objects are not even referenced)
+            import json
+            pth = os.path.join(tmp, 'src.json')
+            with open(pth, 'w') as fh:
+                json.dump(container, fh)
+            ds = ld.new(pth if n % 2 else __import__('pathlib').Path(pth))
         elif kind == 'memcache_copy':
             # the memory cache in its second immutability mode (class-level API only)
             ds = ld.core.CacheDataset(ld.new(container), immutable_warranty='copy')
@@ -187,7 +194,7 @@ def run(tier):
     r = common.rng_for('C09')
     big = tier != 'quick'
     tmp = tempfile.mkdtemp(prefix='c09_')
-    kinds = ['pickle', 'copy', 'wu', 'memcache', 'memcache_map', 'diskcache', 'memcache_shared', 'diskcache_shared', 'memcache_copy', 'memcache_copy_shared']
+    kinds = ['pickle', 'copy', 'wu', 'memcache', 'memcache_map', 'diskcache', 'memcache_shared', 'diskcache_shared', 'memcache_copy', 'memcache_copy_shared', 'jsonfile']
     cases, lcases, lmeta, meta, failures = [], [], [], [], []
     for ci in range(5000 if big else 500):
         common.tick()
@@ -204,17 +211,19 @@ def run(tier):
                 nh += 1
             elif x < 0.85:
                 ops.append(('mut', r.randrange(nh), r.randint(1, 50)))
-            elif serial and kind in ('pickle', 'wu'):
+            elif kind in ('pickle', 'wu', 'copy', 'jsonfile'):          # copy mode keeps references to the caller's examples: the model says such a change IS visible
                 ops.append(('mutorig', r.randrange(n), r.randint(51, 99)))
             else:
                 ops.append(('mut', r.randrange(nh), r.randint(1, 50)))
         wd = os.path.join(tmp, f'h{ci}')
         os.makedirs(wd)
-        shape = r.choice(['dict', 'dict', 'tuple', 'list'])
+        shape = r.choice(['dict', 'dict', 'tuple', 'list']) if kind != 'jsonfile' else r.choice(['dict', 'list'])      # JSON has no tuples
         outs = run_history(ld, kind, n, keyed, ops, wd, shape)
         shutil.rmtree(wd, ignore_errors=True)
         # direct predicate: every read returns the pristine content (version 0)
         for op, o in zip(ops, outs):
+            if kind == 'copy' and any(x[0] == 'mutorig' for x in ops):
+                break                   # only the model comparison applies (reads follow the caller's own changes of the originals)
             if op[0] == 'read' and o != ('val', 0):
                 failures.append(dict(kind='history', summary=f'{kind} storage ({"dict" if keyed else "list"}-backed, {shape} examples, n={n}): after {ops} a read by path {op[1]!r} of example {op[2]} returned content {o}',
                                      config=dict(kind=kind, n=n, keyed=keyed, shape=shape, ops=[list(x) for x in ops])))
